@@ -215,23 +215,25 @@ static void run_struct(Ctx &c, int fr, int entry, const std::vector<uint8_t> &ms
 }
 
 // frame produced by the bundled Python client (tools/c01_pyclient.py writes these cases)
-static void run_pyframe(Ctx &c) {
+static void run_pyframe(Ctx &c, int fr) {
   size_t n = c.u16();
   std::vector<uint8_t> msg = c.bytes(n), frame;
   while (!c.exhausted()) frame.push_back(c.u8());
-  c.logf("python client frame (mpt.py encode_cobs)");
+  c.logf("python client frame (mpt.py %s)", fr == FCommand ? "encode_command" : "encode_cobs");
   c.loghex("message", msg.data(), msg.size());
   c.label("python-client");
   if (frame.empty()) return;
-  check_frame(c, FCobs, frame, msg);
-  decode_lib(c, FCobs, frame, msg);
+  check_frame(c, fr, frame, msg);
+  decode_lib(c, fr, frame, msg);
+  if (fr == FCommand) { c.label("python-client:command"); if (msg.size() > 1) c.nontrivial(); return; }
   size_t run = 0;
   for (uint8_t b : msg) { if (b) { if (++run >= 254) { c.nontrivial(); c.label("msg:block-boundary"); break; } } else run = 0; }
 }
 
 static void run(Ctx &c) {
   uint8_t sel = c.u8();
-  if (sel == 0xfe && external_mode()) { run_pyframe(c); return; }
+  if (sel == 0xfe && external_mode()) { run_pyframe(c, FCobs); return; }
+  if (sel == 0xfd && external_mode()) { run_pyframe(c, FCommand); return; }
   if (sel == 0xff) {  // enumerated sub-space: message of length <= 4 over the boundary alphabet
     static const uint8_t A[] = {0x00, 0x01, 0x02, 0xDE, 0xDF, 0xE0, 0xE1, 0xFE, 0xFF};
     int fr = c.pick(NFraming);
